@@ -20,7 +20,10 @@ import (
 type simNet struct {
 	n      int
 	nodes  []*simNode
-	adj    [][]bool
+	adj    [][]bool // current neighbour links
+	ever   [][]bool // links that existed at some time (nlink / nunlink change adj only)
+	pub    []int
+	relays []packet // relay streams (C/P) picked up while collecting a node's output
 	alpha  int
 	ttl    int
 	flight []packet
@@ -35,8 +38,14 @@ func (s *simNet) close() {
 
 func (s *simNet) collect(from int) {
 	for _, p := range decode(from, s.nodes[from].str.take()) {
-		if p.kind == "Q" || p.kind == "R" {
+		switch p.kind {
+		case "Q", "R":
+			if p.to < s.n && !s.adj[from][p.to] && s.ever[from][p.to] {
+				continue // the link has gone down (nunlink): the stream cannot be opened
+			}
 			s.flight = append(s.flight, p)
+		case "C", "P":
+			s.relays = append(s.relays, p)
 		}
 	}
 }
@@ -47,7 +56,7 @@ func (s *simNet) checkPath(ctx *core.Ctx, where string, p []int) {
 		ctx.Fail(where+"-path-duplicate", "%s path %v repeats a node", where, p)
 	}
 	for i := 0; i+1 < len(p); i++ {
-		if p[i] >= s.n || p[i+1] >= s.n || !s.adj[p[i]][p[i+1]] {
+		if p[i] >= s.n || p[i+1] >= s.n || !s.ever[p[i]][p[i+1]] {
 			ctx.Fail(where+"-path-not-walk", "%s path %v: %d-%d is not a neighbour link", where, p, p[i], p[i+1])
 			break
 		}
@@ -68,7 +77,7 @@ func (s *simNet) invariants(ctx *core.Ctx) {
 			if len(ip) > s.ttl {
 				ctx.Fail("stored-path-too-long", "node %d stores %v, ttl %d", i, ip, s.ttl)
 			}
-			if len(ip) > 0 && !s.adj[i][ip[len(ip)-1]%universe] {
+			if len(ip) > 0 && !s.ever[i][ip[len(ip)-1]%universe] {
 				ctx.Fail("stored-path-last-not-neighbor", "node %d stores %v whose last hop is not its neighbour", i, ip)
 			}
 		})
@@ -96,7 +105,7 @@ func (s *simNet) invariants(ctx *core.Ctx) {
 		} else {
 			ps = idxPaths(p.resp.Paths)
 		}
-		if !s.adj[p.from][p.to%universe] {
+		if !s.ever[p.from][p.to%universe] {
 			ctx.Fail("message-to-non-neighbor", "%s sent from %d to %d", p.kind, p.from, p.to)
 		}
 		for _, q := range ps {
@@ -112,7 +121,7 @@ func (s *simNet) deliverAt(ctx *core.Ctx, k int, drop bool, r *core.Rand) {
 	p := s.flight[k]
 	s.flight = append(append([]packet(nil), s.flight[:k]...), s.flight[k+1:]...)
 	s.steps++
-	if drop || p.to >= s.n {
+	if drop || p.to >= s.n || !s.adj[p.from][p.to] {
 		return
 	}
 	var msg protobuf.Message
@@ -152,9 +161,9 @@ func (rn *runner) netStep(ctx *core.Ctx, op []string) string {
 		if e1 != nil || e2 != nil || e3 != nil || !ok || n < 1 || n > universe || a < 1 || l < 0 {
 			return "bad-op"
 		}
-		adj := make([][]bool, universe)
+		adj, ever := make([][]bool, universe), make([][]bool, universe)
 		for i := range adj {
-			adj[i] = make([]bool, universe)
+			adj[i], ever[i] = make([]bool, universe), make([]bool, universe)
 		}
 		order := make([][]int, n)
 		if op[2] != "-" {
@@ -170,6 +179,7 @@ func (rn *runner) netStep(ctx *core.Ctx, op []string) string {
 				}
 				if !adj[x][y] {
 					adj[x][y], adj[y][x] = true, true
+					ever[x][y], ever[y][x] = true, true
 					order[x] = append(order[x], y)
 					order[y] = append(order[y], x)
 				}
@@ -179,7 +189,7 @@ func (rn *runner) netStep(ctx *core.Ctx, op []string) string {
 			rn.net.close()
 		}
 		setGlobals(a, l)
-		s := &simNet{n: n, adj: adj, alpha: a, ttl: l}
+		s := &simNet{n: n, adj: adj, ever: ever, pub: pub, alpha: a, ttl: l}
 		for i := 0; i < n; i++ {
 			class := make([]int, len(order[i]))
 			for k, nb := range order[i] {
@@ -242,6 +252,37 @@ func (rn *runner) netStep(ctx *core.Ctx, op []string) string {
 			s.deliverAt(ctx, r.Intn(len(s.flight)), r.Chance(5), r)
 		}
 		return "ok"
+	case (op[0] == "nlink" || op[0] == "nunlink") && len(op) == 3:
+		// the topology changes: a link comes up / goes down (both ends notice, as after a libp2p
+		// connect / disconnect); messages in flight on a link that goes down are lost
+		a, e1 := strconv.Atoi(op[1])
+		b, e2 := strconv.Atoi(op[2])
+		if e1 != nil || e2 != nil || a < 0 || b < 0 {
+			return "bad-op"
+		}
+		if a >= s.n || b >= s.n || a == b {
+			return "ok"
+		}
+		if op[0] == "nlink" && !s.adj[a][b] {
+			s.adj[a][b], s.adj[b][a] = true, true
+			s.ever[a][b], s.ever[b][a] = true, true
+			s.nodes[a].link(b, contains(s.pub, b))
+			s.nodes[b].link(a, contains(s.pub, a))
+		}
+		if op[0] == "nunlink" && s.adj[a][b] {
+			s.adj[a][b], s.adj[b][a] = false, false
+			s.nodes[a].unlink(b)
+			s.nodes[b].unlink(a)
+			var keep []packet
+			for _, p := range s.flight {
+				if !(p.from == a && p.to == b || p.from == b && p.to == a) {
+					keep = append(keep, p)
+				}
+			}
+			s.flight = keep
+		}
+		s.invariants(ctx)
+		return "ok"
 	case op[0] == "nrelay" && len(op) == 4:
 		i, e1 := strconv.Atoi(op[1])
 		t, e2 := strconv.Atoi(op[2])
@@ -253,7 +294,11 @@ func (rn *runner) netStep(ctx *core.Ctx, op []string) string {
 			return "ok"
 		}
 		r := core.NewRand(uint64(seed))
-		// follow a conn-chain relay hop by hop through the real handlers
+		// follow a relay hop by hop through the real handlers.  A node without a usable next hop runs a
+		// route discovery inside the handler (GetNextHopRandomOrFind -> FindRoute): while it waits, the
+		// scheduler delivers the messages in flight (the discovery's requests, their answers, anything
+		// left over) until a response for the target reaches the waiting node or nothing is left to
+		// deliver (then FindRoute gives up); the handler then picks the next hop from what it has learned.
 		cur, from := i, i
 		path := []int{}
 		for hop := 0; hop < 4*universe; hop++ {
@@ -267,25 +312,43 @@ func (rn *runner) netStep(ctx *core.Ctx, op []string) string {
 				name = routetab.StreamOnRelay
 			}
 			n := s.nodes[cur]
-			n.str.take()
-			withRand(r.Bytes(6), func() { _ = n.deliver(name, from, msg) })
-			out := decode(cur, n.str.take())
+			s.collect(cur)
+			s.relays = nil
+			discovered := false
+			withRand(r.Bytes(6), func() {
+				discovered = n.relayRun(name, from, msg, t, n.expectForward(t, s.alpha), func() {
+					s.collect(cur) // the discovery's requests
+					s.invariants(ctx)
+					bound := s.stepBound()
+					for k := 0; len(s.flight) > 0 && n.selfPending(t) > 0; k++ {
+						if k >= bound {
+							ctx.Fail("discovery-does-not-terminate", "%d messages still in flight after %d deliveries during a relay (n=%d ttl=%d)", len(s.flight), k, s.n, s.ttl)
+							s.flight = nil
+							break
+						}
+						s.deliverAt(ctx, r.Intn(len(s.flight)), r.Chance(5), r)
+					}
+				})
+			})
+			s.collect(cur)
 			next := -1
-			for _, p := range out {
-				switch p.kind {
-				case "C", "P":
+			for _, p := range s.relays {
+				if p.from == cur {
 					next = p.to
 					path = idxPath(p.relay.Paths)
-				case "Q", "R": // a route discovery started by the relay
-					s.flight = append(s.flight, p)
 				}
 			}
+			s.relays = nil
 			s.invariants(ctx)
 			if next < 0 {
 				break
 			}
 			if next != t && contains(path, next) {
-				ctx.Fail("relay-revisit", "relay %d->%d: node %d forwards to %d which is on the path %v", i, t, cur, next, path)
+				if discovered {
+					ctx.Fail("relay-revisit/after-discovery", "relay %d->%d: node %d ran a route discovery and then forwards to %d which is on the path %v", i, t, cur, next, path)
+				} else {
+					ctx.Fail("relay-revisit", "relay %d->%d: node %d forwards to %d which is on the path %v", i, t, cur, next, path)
+				}
 				break
 			}
 			if next >= s.n || !s.adj[cur][next] {
